@@ -20,6 +20,16 @@ def printQuoted (s : Option Bytes) : Bytes := c_dq :: escBody (s.getD []) ++ [c_
 
 def indentBytes (n : Nat) : Bytes := List.replicate (2 * n) c_sp
 
+def hasSlashSlash : Bytes → Bool
+  | a :: b :: rest => (a == c_slash && b == c_slash) || hasSlashSlash (b :: rest)
+  | _ => false
+
+/-- a name the scanner reads back as one word (`strcspn` over the word delimiters, no `//`) -/
+def isPlainName (n : Bytes) : Bool := !n.isEmpty && n.all isWordByte && !hasSlashSlash n
+
+/-- `cfg_print_name`: as it is when it is a plain word, otherwise as a quoted string -/
+def printName (n : Bytes) : Bytes := if isPlainName n then n else printQuoted (some n)
+
 def bTrue : Bytes := [116, 114, 117, 101]
 def bFalse : Bytes := [102, 97, 108, 115, 101]
 
@@ -56,7 +66,7 @@ mutual
 def printVals (o : Opt) (pff : Option (List Bytes)) (indent : Nat) : List Val → Bytes
   | [] => []
   | .sec s :: vs =>
-    indentBytes indent ++ o.name ++
+    indentBytes indent ++ printName o.name ++
       (if o.flags.title then [c_sp] ++ printQuoted s.info.title else []) ++ [c_sp, c_lbr, c_nl] ++
       printCfg pff (indent + 1) s ++ indentBytes indent ++ [c_rbr, c_nl] ++ printVals o pff indent vs
   | _ :: vs => printVals o pff indent vs
@@ -70,9 +80,9 @@ def printOpt (pff : Option (List Bytes)) (indent : Nat) : Opt → Bytes
     (if info.ty == .sec then printVals o pff indent vals
      else if info.ty != .func then
        (if flags.list then
-          indentBytes indent ++ info.name ++ [c_sp, c_eq, c_sp, c_lbr] ++ joinValues o vals.length 0 ++ [c_rbr]
+          indentBytes indent ++ printName info.name ++ [c_sp, c_eq, c_sp, c_lbr] ++ joinValues o vals.length 0 ++ [c_rbr]
         else
-          indentBytes indent ++ (if isUnset o then [c_hash, c_sp] else []) ++ info.name ++ [c_eq] ++ printValue o 0)
+          indentBytes indent ++ (if isUnset o then [c_hash, c_sp] else []) ++ printName info.name ++ [c_eq] ++ printValue o 0)
        ++ [c_nl]
      else if info.printCb then indentBytes indent ++ printCbOut info.name 0 ++ [c_nl]
      else [])
